@@ -2,6 +2,7 @@ package nfs41sim
 
 import (
 	"fmt"
+	"math/bits"
 	"runtime/debug"
 	"sort"
 	"strings"
@@ -29,8 +30,26 @@ type profile struct {
 	excludeDup bool
 }
 
+// draw returns a (nearly) uniformly distributed integer in [lo, hi].
+// rapid.IntRange is deliberately biased towards small values (about 43%
+// of IntRange(0,99) draws are below 10), which would starve most of a
+// weighted operation table; single bits are unbiased, so the value is
+// assembled from bits. A smaller bit pattern still means a smaller value,
+// so shrinking keeps working.
 func (w *world) draw(name string, lo, hi int) int {
-	return rapid.IntRange(lo, hi).Draw(w.rt, name)
+	n := uint64(hi - lo + 1)
+	if n <= 1 {
+		return lo
+	}
+	k := bits.Len64(n-1) + 3
+	var v uint64
+	for _, b := range rapid.SliceOfN(rapid.Bool(), k, k).Draw(w.rt, name) {
+		v <<= 1
+		if b {
+			v |= 1
+		}
+	}
+	return lo + int(v*n>>uint(k))
 }
 
 func (w *world) pct(name string, p int) bool {
@@ -231,6 +250,75 @@ func (w *world) pickSID(inc *incM, want string) (nfsv4.Stateid4, []byte, string,
 	return anonSID, anyFH, "anon", true
 }
 
+// drawRangeNear draws a lock range for an operation of lock-owner key on
+// leaf. Part of the time the range is placed relative to a run the owner
+// already holds (inside it, adjacent to it, overlapping its end), which
+// is what makes the lock table split and merge entries.
+func (w *world) drawRangeNear(leaf *countLeaf, key string) lockRange {
+	fl := w.locks[leaf]
+	if leaf == nil || fl == nil || !fl.holds(key) || !w.pct("rangeNearOwnLock", 45) {
+		return w.drawRange()
+	}
+	type run struct{ lo, hi int }
+	var runs []run
+	for u := 0; u < lockUnits; {
+		t := fl.typeAt(key, u)
+		if t == 0 {
+			u++
+			continue
+		}
+		v := u
+		for v < lockUnits && fl.typeAt(key, v) == t {
+			v++
+		}
+		runs = append(runs, run{u, v})
+		u = v
+	}
+	r := pick(w, "ownRun", runs)
+	lo, hi := r.lo, r.hi
+	switch pick(w, "rangePlacement", []string{"inside", "inside", "after", "before", "overlap_end", "same"}) {
+	case "inside":
+		if r.hi-r.lo >= 3 {
+			lo = w.draw("insideLo", r.lo+1, r.hi-2)
+			hi = w.draw("insideHi", lo+1, r.hi-1)
+		}
+	case "after":
+		if r.hi < lockUnits {
+			lo, hi = r.hi, w.draw("afterHi", r.hi+1, lockUnits)
+		}
+	case "before":
+		if r.lo > 0 {
+			lo, hi = w.draw("beforeLo", 0, r.lo-1), r.lo
+		}
+	case "overlap_end":
+		if r.hi < lockUnits && r.hi-r.lo >= 2 {
+			lo, hi = r.hi-1, w.draw("overlapHi", r.hi+1, lockUnits)
+		}
+	}
+	off := pointToOffset(lo)
+	length := pointToOffset(hi) - off
+	if hi == lockPoints-1 && w.pct("lengthAllOnes", 60) {
+		length = maxU64
+	}
+	return lockRange{offset: off, length: length, desc: fmt.Sprintf("units [%d,%d) as (offset %d, length %d)", lo, hi, off, length)}
+}
+
+// lockHint finds the file and lock-owner key an operation with this
+// state ID acts on, if the state ID is one of inc's live ones.
+func (w *world) lockHint(inc *incM, sid nfsv4.Stateid4, lockOwner string) (*countLeaf, string) {
+	other, ok := stateIDOther(&sid)
+	if !ok {
+		return nil, ""
+	}
+	switch s := inc.byOther[other].(type) {
+	case *openM:
+		return s.leaf, lockOwnerKey(inc.clientID, lockOwner)
+	case *lockM:
+		return s.open.leaf, s.ownerKey()
+	}
+	return nil, ""
+}
+
 func (w *world) drawRange() lockRange {
 	k := w.draw("rangeKind", 0, 99)
 	switch {
@@ -303,13 +391,14 @@ func (w *world) buildTemplate(inc *incM, kind string) *tmpl {
 		if !ok {
 			return w.buildTemplate(inc, "open")
 		}
-		return w.tLock(inc, fh, true, sid, how, pick(w, "lockOwner", lockOwners), w.draw("lockType", ltRead, ltWrite), w.pct("lockWait", 20), w.drawRange())
+		lockOwner := pick(w, "lockOwner", lockOwners)
+		return w.tLock(inc, fh, true, sid, how, lockOwner, w.draw("lockType", ltRead, ltWrite), w.pct("lockWait", 20), w.drawRangeNear(w.lockHint(inc, sid, lockOwner)))
 	case "lock_existing":
 		sid, fh, how, ok := w.pickSID(inc, "lock")
 		if !ok {
 			return w.buildTemplate(inc, "lock_new")
 		}
-		return w.tLock(inc, fh, false, sid, how, "", w.draw("lockType", ltRead, ltWrite), w.pct("lockWait", 20), w.drawRange())
+		return w.tLock(inc, fh, false, sid, how, "", w.draw("lockType", ltRead, ltWrite), w.pct("lockWait", 20), w.drawRangeNear(w.lockHint(inc, sid, "")))
 	case "lockt":
 		fh, ok := w.pickFH(true)
 		if !ok {
@@ -321,7 +410,7 @@ func (w *world) buildTemplate(inc *incM, kind string) *tmpl {
 		if !ok {
 			return w.buildTemplate(inc, "lock_new")
 		}
-		return w.tLockU(inc, fh, sid, how, w.drawRange())
+		return w.tLockU(inc, fh, sid, how, w.drawRangeNear(w.lockHint(inc, sid, "")))
 	case "free_stateid":
 		want := "lock"
 		if w.pct("freeOpenState", 15) {
@@ -405,6 +494,9 @@ func (w *world) seqAction(kind string, forcePark bool) {
 		return
 	}
 	t := w.buildTemplate(sess.inc, kind)
+	if !forcePark && w.pct("dropPutFH", 3) {
+		t = w.withoutFileHandle(t)
+	}
 	plan := map[string]bool{}
 	if len(t.parkOK) > 0 && (forcePark || w.pct("park", w.p.parkPct)) {
 		plan[pick(w, "parkAt", t.parkOK)] = true
@@ -416,6 +508,25 @@ func (w *world) seqAction(kind string, forcePark bool) {
 func (w *world) learnSessionFate(c *call) {
 	if w.isDone(c) && c.res != nil && isSeqError(c.res, nfsv4.NFS4ERR_BADSESSION) {
 		c.sess.clientKnowsDead = true
+	}
+}
+
+// withoutFileHandle is the deviation "no current file handle": the
+// leading PUTFH is dropped, so the first operation that needs the current
+// file handle must fail with NFS4ERR_NOFILEHANDLE and nothing may change.
+func (w *world) withoutFileHandle(t *tmpl) *tmpl {
+	if len(t.ops) < 2 {
+		return t
+	}
+	if _, ok := t.ops[0].(*nfsv4.NfsArgop4_OP_PUTFH); !ok {
+		return t
+	}
+	return &tmpl{
+		kind:   t.kind,
+		desc:   "(no file handle) " + t.desc[strings.Index(t.desc, ";")+1:],
+		ops:    t.ops[1:],
+		data:   map[string]any{},
+		atExec: func(c *call) { c.t.expect = []sts{one(nfsv4.NFS4ERR_NOFILEHANDLE)}; w.label("no_file_handle_rejected") },
 	}
 }
 
@@ -802,7 +913,12 @@ func runInBubble(t *testing.T, mk func() *world, body func(w *world)) (*caseResu
 
 func runCase(t *testing.T, rt *rapid.T, p *profile) *caseResult {
 	res, failure := runInBubble(t, func() *world { return newWorld(rt, p) }, func(w *world) {
+		// Mostly long histories; the short ones exist so that a failing
+		// case can shrink to a short script.
 		n := w.draw("steps", p.steps[0], p.steps[1])
+		if w.draw("long", 0, 9) != 0 {
+			n += 30
+		}
 		for i := 0; i < n; i++ {
 			w.doStep(pick(w, "op", p.ops))
 		}
